@@ -1483,16 +1483,31 @@ namespace bloch::runtime {
                 m_inStaticContext = false;
                 m_inConstructor = false;
                 m_inDestructor = true;
+                size_t envDepth = m_env.size();
+                size_t frameDepth = m_frameBases.size();
                 beginFrame();
                 Value thisVal;
                 thisVal.type = Value::Type::Object;
                 thisVal.objectValue = std::shared_ptr<Object>(obj, [](Object*) {});
                 thisVal.className = cur->name;
                 m_env.back()["this"] = {thisVal, false, true};
-                for (auto& stmt : cur->destructorDecl->body->statements) {
-                    exec(stmt.get());
-                    if (m_hasReturn)
-                        break;
+                try {
+                    for (auto& stmt : cur->destructorDecl->body->statements) {
+                        exec(stmt.get());
+                        if (m_hasReturn)
+                            break;
+                    }
+                } catch (...) {
+                    // The object is about to be freed: do not leave the destructor's scopes
+                    // (which hold a non-owning 'this') on the stack for the collector to mark.
+                    while (m_env.size() > envDepth) m_env.pop_back();
+                    m_frameBases.resize(frameDepth);
+                    m_inDestructor = prevDtor;
+                    m_inConstructor = prevCtor;
+                    m_inStaticContext = prevStatic;
+                    m_currentClassCtx = prevClass;
+                    m_hasReturn = savedReturn;
+                    throw;
                 }
                 endFrame();
                 m_inDestructor = prevDtor;
@@ -1831,9 +1846,9 @@ namespace bloch::runtime {
             }
         }
 #endif
+        rethrowPendingDestructorError();
         if (m_gcRequested.load())
             runCycleCollector();
-        rethrowPendingDestructorError();
         if (!s)
             return;
         auto isTruthy = [](const Value& v) {
